@@ -15,14 +15,12 @@ const vhC02 = chkC02Sign | chkC02Save
 // VH_C02_Seq: one process life. Height 1 round 0 entered with no votes yet (0/1 header),
 // then 3 (quick) / 4 (thorough) events of any kind: view updates, timeouts, strategy
 // answers (any hash, late, duplicate), proposal, block data, finalization, jump-ahead.
-// Quick: at most one of the events is a view update with new vote numbers.
+// At most one of the events is a view update with new vote numbers.
 func VH_C02_Seq() {
 	vhOpts()
 	e := vhNewSM(true)
 	e.symEntrances = 0
-	if !verifrt.Thorough() {
-		e.viewsLeft = 1
-	}
+	e.viewsLeft = 1
 	if !e.start() {
 		return
 	}
@@ -41,19 +39,21 @@ func VH_C02_Seq() {
 	e.finish()
 }
 
-// VH_C02_StartAny: start-up answered with an arbitrary view, then 2 events (so that
-// precommit answers in rounds entered late are covered).
+// VH_C02_StartAny: start-up answered with an arbitrary view, then 2 (quick) / 3 (thorough)
+// events, at most one with new vote numbers (precommit answers in rounds entered late).
 func VH_C02_StartAny() {
 	vhOpts()
 	e := vhNewSM(true)
-	if !verifrt.Thorough() {
-		e.viewsLeft = 1
-	}
+	e.viewsLeft = 1
 	if !e.start() {
 		return
 	}
 	e.check(vhC02)
-	e.run(vhC02, vhEvents(), 2)
+	n := 2
+	if verifrt.Thorough() {
+		n = 3
+	}
+	e.run(vhC02, vhEvents(), n)
 	if e.seen&vhSeenVoteReleased != 0 {
 		verifrt.Reach("C02-start:vote-released")
 	}
@@ -70,18 +70,16 @@ func vhRestartRun(tag string, kinds []int) *vhSM {
 	e := vhNewSM(true)
 	e.symEntrances = 0
 	e.ownPHInRestart = true
-	if !verifrt.Thorough() {
-		e.viewsLeft = 1 // per process life
-	}
+	e.viewsLeft = 1 // per process life
 	if !e.start() {
 		return nil
 	}
 	e.check(vhC02)
 	k := 2
 	if verifrt.Thorough() {
-		k = 3
+		k = 3 // events after the restart
 	}
-	k1 := 1 + verifrt.Choose("events-before-restart", k)
+	k1 := 1 + verifrt.Choose("events-before-restart", 2)
 	midSave := verifrt.Choose("killed-right-after-save", 2) == 1
 	for i := 0; i < k1; i++ {
 		if midSave && i == k1-1 {
@@ -103,9 +101,7 @@ func vhRestartRun(tag string, kinds []int) *vhSM {
 		return nil // nothing signed in the first life: the restart is a fresh start (VH_C02_Seq)
 	}
 	e.crashOnSave, e.crashed = false, false
-	if !verifrt.Thorough() {
-		e.viewsLeft = 1
-	}
+	e.viewsLeft = 1
 	if !e.restart() {
 		return nil
 	}
